@@ -211,6 +211,7 @@ class Screen608:
             new[r - 1] = cells
         self.disp = new
         self.row, self.col = 15, 1
+        self.pen = ("white", False, False)  # attributes end with the row; an empty row starts white, non-underlined
       return "CR"
     if b2 == 0x2e:
       self.nond = {}
